@@ -140,6 +140,11 @@ type sharedArr struct {
 	slice []any
 }
 
+// ptrDrop: a Drop implemented on a pointer type (usable as a map key by identity)
+type ptrDrop struct{ v any }
+
+func (d *ptrDrop) ToLiquid() any { return d.v }
+
 type testDrop struct{ v any }
 
 func (d testDrop) ToLiquid() any { return d.v }
@@ -533,6 +538,20 @@ func realiseBase(v J, r *Repr, path, h string) (any, error) {
 				return sv.Addr().Interface(), nil
 			}
 			return sv.Interface(), nil
+		case "ptrkeys", "dropkeys": // keys held indirectly: pointers to the strings / Drops (on a pointer type) yielding them
+			if h == "ptrkeys" {
+				t := map[*string]any{}
+				for _, k := range keys {
+					kk := k
+					t[&kk] = out[k]
+				}
+				return t, nil
+			}
+			t := map[any]any{}
+			for _, k := range keys {
+				t[&ptrDrop{k}] = out[k]
+			}
+			return t, nil
 		case "anystrkeys": // the same string keys in a map[any]any, as a YAML decoder produces
 			t := map[any]any{}
 			for k, e := range out {
